@@ -558,11 +558,14 @@ Definition tm_obs_eqb (a b : tm_obs) : bool :=
   let '(l2, e2, r2, c2) := b in
   option_eqb N.eqb l1 l2 && Bool.eqb e1 e2 && option_eqb nlist_eqb r1 r2 && list_eqb Bool.eqb c1 c2.
 
-(* stream "ops": input (initial map, script, probes); output (final map, per-step results, observables) *)
-Definition chk_ops (i : treemap * list tm_op * list N) (o : outcome (treemap * list N * tm_obs)) : bool :=
-  let '(t0, ops, probes) := i in
+(* stream "ops": input (skip_ids, (initial map, script, probes)); output (final map, per-step results,
+   observables).  skip_ids = the final map holds a nearly full bitmap whose ids the harness cannot list. *)
+Definition chk_ops_x (i : bool * (treemap * list tm_op * list N)) (o : outcome (treemap * list N * tm_obs)) : bool :=
+  let '(skip_ids, (t0, ops, probes)) := i in
   match run_ops ops t0 [], o with
-  | Ok (t, rs), Ok (t', rs', obs) => tm_eqb t t' && nlist_eqb rs rs' && tm_obs_eqb (tm_observe t probes) obs
+  | Ok (t, rs), Ok (t', rs', obs) =>
+    tm_eqb t t' && nlist_eqb rs rs'
+    && tm_obs_eqb (tm_len t, tm_is_empty t, if skip_ids then None else tm_row_ids t, map (tm_contains t) probes) obs
   | Err, Err => true
   | Panic, Panic => true
   | _, _ => false
